@@ -580,4 +580,99 @@ theorem walkFrameCfi_follows (sf : Walk.SymFile) (modBase : Nat) (x : Walk.CfiIn
     cases hcfa2; cases hra2
     rw [hraw, hsim s]
 
+/-! ## `Env.cfi` of `mkEnv` on a callee frame -/
+
+theorem sp_ne_ip (a : Walk.Arch) : a.spName ≠ a.ipName := by cases a <;> decide
+
+theorem rawC_sp (a : Walk.Arch) (c : Walk.Ctx) : rawC a c a.spName = c.sp := by
+  unfold rawC; simp [sp_ne_ip a]
+
+theorem rawC_ip (a : Walk.Arch) (c : Walk.Ctx) : rawC a c a.ipName = c.ip := by
+  unfold rawC; simp
+
+theorem stepW_m64 (x : Walk.CfiIn) (cfa : Nat) (o : Walk.CfiOut) (p : String × List Walk.ETok) :
+    (stepW x cfa o p).ctx.m64 = o.ctx.m64 := by
+  unfold stepW
+  split
+  · split
+    · rename_i o' hs
+      rw [setReg_spec] at hs
+      split at hs
+      · cases hs
+      · simp only at hs
+        split at hs
+        · cases hs
+        · cases hs
+          simp only
+          split
+          · rfl
+          · split <;> rfl
+    · rw [clearReg_ctx]
+  · rw [clearReg_ctx]
+
+theorem fold_m64 (x : Walk.CfiIn) (cfa : Nat) (l : List (String × List Walk.ETok)) :
+    ∀ o : Walk.CfiOut, (l.foldl (stepW x cfa) o).ctx.m64 = o.ctx.m64 := by
+  induction l with
+  | nil => intro o; rfl
+  | cons p t ih => intro o; simp only [List.foldl_cons]; rw [ih, stepW_m64]
+
+theorem walkFrameCfi_m64 {sf : Walk.SymFile} {ct : List RangeMap.Entry} {base : Nat} {x : Walk.CfiIn}
+    {o0 o : Walk.CfiOut} {instr : Nat} (h : Walk.walkFrameCfi sf ct base x o0 instr = some o) :
+    o.ctx.m64 = o0.ctx.m64 := by
+  unfold Walk.walkFrameCfi at h
+  split at h
+  · cases h
+  · simp only at h
+    split at h
+    · cases h
+    · split at h
+      · cases h
+      · obtain ⟨cfa, ra, l, _, _, rfl⟩ := walkCfi_shape h
+        rw [fold_m64]; rfl
+
+/-- `spValid` is the validity of the stack pointer under the architecture's own name for it -/
+theorem spValid_eq (a : Walk.Arch) (c : Walk.Ctx) : spValid a c = c.has a a.spName := by
+  cases a <;> simp only [spValid, Walk.Ctx.has, Walk.Ctx.hasLit, Walk.Arch.spName] <;>
+    cases c.valid <;> simp [Walk.Arch.aliases, Walk.Arch.canon, Walk.Arch.registers]
+
+/-- with a valid stack pointer, a module at the lookup address and a symbol file for it, `Env.cfi` is
+    the symbol file's `walk_frame` followed by the validity set and the pointer-authentication strip -/
+theorem cfi_reduce (arch : Walk.Arch) (os : Walk.Os) (w : Walk.World) (mem : Walk.Mem)
+    (callee : Walk.Frame) (grand : Option Walk.Frame) (k : Nat) (m : Walk.Module) (sf : Walk.SymFile)
+    (hsp : spValid (Walk.effArch arch callee.ctx) callee.ctx = true)
+    (hmod : Walk.moduleAt (Walk.modTable w.mods) callee.instruction = some k)
+    (hm : w.mods[k]? = some m) (hsf : w.syms[k]? = some (some sf)) :
+    (Walk.mkEnv arch os w mem).cfi callee grand =
+      (Walk.walkFrameCfi sf (Walk.cfiTable sf) m.base ⟨Walk.effArch arch callee.ctx, callee.ctx, mem⟩
+        ⟨callee.ctx, Walk.forwarded (Walk.effArch arch callee.ctx) callee.ctx⟩ callee.instruction).map fun o =>
+          stripPA (Walk.effArch arch callee.ctx) (Walk.mkEnv arch os w mem).mask { o.ctx with valid := some o.valid } := by
+  show Walk.cfiOf arch w (Walk.modTable w.mods) (Walk.cfiTables w) _ mem callee grand = _
+  rw [cfiOf_eq, cfiWalk_mkEnv, hmod]
+  simp only [hsp, Bool.not_true, Bool.false_eq_true, if_false, hm, hsf]
+  rfl
+
+theorem cfi_none_of (arch : Walk.Arch) (os : Walk.Os) (w : Walk.World) (mem : Walk.Mem)
+    (callee : Walk.Frame) (grand : Option Walk.Frame) :
+    (spValid (Walk.effArch arch callee.ctx) callee.ctx = false → (Walk.mkEnv arch os w mem).cfi callee grand = none) ∧
+    (Walk.moduleAt (Walk.modTable w.mods) callee.instruction = none → (Walk.mkEnv arch os w mem).cfi callee grand = none) ∧
+    (∀ k, Walk.moduleAt (Walk.modTable w.mods) callee.instruction = some k →
+      (∀ sf, w.syms[k]? ≠ some (some sf)) → (Walk.mkEnv arch os w mem).cfi callee grand = none) := by
+  have e : (Walk.mkEnv arch os w mem).cfi callee grand =
+      Walk.cfiOf arch w (Walk.modTable w.mods) (Walk.cfiTables w) (Walk.mkEnv arch os w mem).mask mem callee grand := rfl
+  rw [e, cfiOf_eq, cfiWalk_mkEnv]
+  refine ⟨?_, ?_, ?_⟩
+  · intro h; simp [h]
+  · intro h; rw [h]; simp
+  · intro k hk hno
+    rw [hk]
+    cases hm : w.mods[k]? with
+    | none => simp [hm]
+    | some m =>
+      cases hs : w.syms[k]? with
+      | none => simp [hm, hs]
+      | some s =>
+        cases s with
+        | none => simp [hm, hs]
+        | some sf => exact absurd hs (hno sf)
+
 end MdModel.CfiBridge
